@@ -612,6 +612,9 @@ def h_remove_subtree(I, fi, get_parent_fi):
         def eq(self, I_, other):
             return whole and other is t
 
+        def m_get_number_of_nodes(self, I_):
+            return m  # the subtree's clones; equal counts do NOT make the subtree the whole tree (the tree may hold outliers the subtree does not)
+
         def a_roots(self, I_):
             return [sr]
 
